@@ -256,6 +256,7 @@ func checkC03(c CaseC03, info *Info) *Failure {
 		failingEncodes()
 		info.Class("after failing encoder calls")
 	}
+	bystanders()
 	var x []byte
 	var err error
 	var root *XElem
